@@ -114,3 +114,74 @@ Definition mqtt_connect (in_prefix : str) (enter_fails : bool) (sub_faults : lis
     if existsb (fun b => b) (firstn (List.length topics) sub_faults)
     then (fst (mqtt_disconnect started), ConnTransportError)
     else ({| mc_client := true; mc_task := true; mc_entered := mc_entered s + 1; mc_subs := topics |}, ConnOk).
+
+(* ---------- a client over its whole life: connects, disconnects, deliveries, reads ----------
+   The incoming queue belongs to the transport object, not to a connection: what was
+   received and not read yet survives a disconnect, and a read started before a reconnect
+   sees what the next connection receives.  A broker error ends the receive loop of that
+   connection (later deliveries on it are not received) and is itself queued. *)
+Record mqtt_life := {
+  ml_connected : bool;           (* client entered, receive task started *)
+  ml_receiving : bool;           (* that receive task has not been ended by a broker error *)
+  ml_queue : list queue_entry
+}.
+
+Definition ml_init : mqtt_life := {| ml_connected := false; ml_receiving := false; ml_queue := [] |}.
+
+Inductive life_op :=
+| LConnect | LDisconnect
+| LDeliver (e : broker_event)    (* the broker hands a message / an error to the current connection *)
+| LRead.                         (* one read(): the oldest entry, or nothing yet *)
+
+Inductive life_out :=
+| LDone | LRuntimeError
+| LGot (e : queue_entry) | LPending.
+
+Definition entry_of (e : broker_event) : queue_entry :=
+  match e with
+  | BMsg topic payload =>
+      match utf8_decode payload with Some p => QLine (of_mqtt topic p) | None => QReadError end
+  | BError => QFailed
+  end.
+
+Definition life_step (s : mqtt_life) (o : life_op) : mqtt_life * life_out :=
+  match o with
+  | LConnect =>
+      if ml_connected s then (s, LRuntimeError)
+      else ({| ml_connected := true; ml_receiving := true; ml_queue := ml_queue s |}, LDone)
+  | LDisconnect =>
+      if ml_connected s
+      then ({| ml_connected := false; ml_receiving := false; ml_queue := ml_queue s |}, LDone)
+      else (s, LRuntimeError)
+  | LDeliver e =>
+      if ml_connected s && ml_receiving s
+      then ({| ml_connected := true;
+               ml_receiving := match e with BError => false | _ => true end;
+               ml_queue := ml_queue s ++ [entry_of e] |}, LDone)
+      else (s, LDone)
+  | LRead =>
+      match ml_queue s with
+      | e :: r => ({| ml_connected := ml_connected s; ml_receiving := ml_receiving s; ml_queue := r |}, LGot e)
+      | [] => (s, LPending)
+      end
+  end.
+
+Fixpoint life_run (s : mqtt_life) (ops : list life_op) : mqtt_life * list life_out :=
+  match ops with
+  | [] => (s, [])
+  | o :: r => let '(s1, out) := life_step s o in let '(s2, outs) := life_run s1 r in (s2, out :: outs)
+  end.
+
+(* what the receive loops accepted, in arrival order (ghost) *)
+Fixpoint life_received (s : mqtt_life) (ops : list life_op) : list queue_entry :=
+  match ops with
+  | [] => []
+  | o :: r =>
+      (match o with
+       | LDeliver e => if ml_connected s && ml_receiving s then [entry_of e] else []
+       | _ => []
+       end) ++ life_received (fst (life_step s o)) r
+  end.
+
+Definition gots (outs : list life_out) : list queue_entry :=
+  flat_map (fun o => match o with LGot e => [e] | _ => [] end) outs.
